@@ -79,8 +79,8 @@ template <typename F> static bool map_point(const M4<F>& M, const LD E[3], const
   }
   return true;
 }
-static const LD C_RATIONAL = 8;   // entries with <= 3 roundings (ortho, frustum, z rows)
-static const LD C_TRIG = 16;      // entries through tan or cos/sin (<= 1 ulp = 2u each) plus <= 4 roundings
+static const LD C_RATIONAL = 12;  // entries with <= 3 roundings (ortho, frustum, pickMatrix): proven bound 3u, x4
+static const LD C_TRIG = 16;      // entries through tan (<= 1 ulp = 2u) plus <= 2 roundings: proven bound 4u, x4
 
 template <typename F> static void op_ortho2d(const Case& c, Outcome& o) {
   F l = FT<F>::get(c.w[0]), r = FT<F>::get(c.w[1]), b = FT<F>::get(c.w[2]), t = FT<F>::get(c.w[3]); o.cls(0);
@@ -282,7 +282,7 @@ template <typename F> static bool eb_accept(const V3<F>& got, const EB ref[3], O
 }
 // pipelines: kind 0 identity (the clip cube itself), 1 ortho, 2 frustum, 3 perspective; all matrices of the depth convention under test
 static const double PNF[4][2] = {{0.1, 10}, {1, 2}, {1, 1000}, {0.01, 1e5}};
-static const double PGRID[5] = {-1, -0.5, 0, 0.75, 1}, PDEPTH[3] = {0, 0.25, 1};
+static const double PGRID[9] = {-1, -0.75, -0.5, -0.25, 0, 0.25, 0.5, 0.75, 1}, PDEPTH[5] = {0, 0.1, 0.25, 0.5, 1};   // quick uses the sub-grid {-1,-.5,0,.75,1} x {0,.25,1}
 template <typename F, typename U, bool ZO> static void op_project(const Case& c, Outcome& o) {
   typedef EA<F> E; typedef glm::vec<4, U, glm::defaultp> VP;
   const int kind = (int)c.w[0], nfi = (int)c.w[1], mdl = (int)c.w[2], hand = (int)c.w[3]; const bool lh = hand == 1;
@@ -310,7 +310,7 @@ template <typename F, typename U, bool ZO> static void op_project(const Case& c,
   const V3<F> win = ZO ? glm::projectZO(p, model, proj, viewport) : glm::projectNO(p, model, proj, viewport);
   o.res(FT<F>::bits(win[0]), FT<F>::bits(win[2])); o.exp(FT<F>::bits((F)W[0].v), FT<F>::bits((F)W[2].v));
   if (!eb_accept(win, W, o, S_PROJECT, 1, ZO ? "projectZO" : "projectNO")) return;
-  if (kind == 0 && mdl == 0 && ab(ga) == 1 && ab(gb) == 1 && gd != 0.25L) {   // corners of the clip cube -> corners of viewport x [0,1] (self-check of the reference)
+  if (kind == 0 && mdl == 0 && ab(ga) == 1 && ab(gb) == 1 && (gd == 0 || gd == 1)) {   // corners of the clip cube -> corners of viewport x [0,1] (self-check of the reference)
     LD wx = ga > 0 ? vp.x + vp.w : vp.x, wy = gb > 0 ? vp.y + vp.h : vp.y, wz = gd; if (W[0].v != wx || W[1].v != wy || W[2].v != wz) { o.bad(91, "ORACLE: reference does not send the clip-cube corner to the viewport corner"); return; } }
   // (b) unProject(project(p)) == p : the bound of the computed window position is propagated through the inverse map
   EB P2[3]; bool okb = eb_unproject(W, em, ep, vp, ZO, P2);
@@ -401,13 +401,14 @@ template <typename F> static void reg(Engine& E) {
   // project / unProject / pickMatrix
   const Domain VXY = ints("viewport origin {0,10,-5}", {0, 10, -5}), VW = ints("viewport width {1,640,1920}", {1, 640, 1920}), VH = ints("viewport height {1,480,1080}", {1, 480, 1080});
   const Domain PIPE = product("KIND{cube,ortho,frustum,perspective}xNF{(.1,10),(1,2),(1,1e3),(.01,1e5)}xMODEL{I,TRS}xHAND{RH,LH}", {range("KIND", 0, 4, true), range("NF", 0, 4, true), range("MODEL", 0, 2, true), range("HAND", 0, 2, true)});
-  const Domain PTS = product("POINT{-1,-.5,0,.75,1}^2x{0,.25,1}", {range("A", 0, 5, true), range("B", 0, 5, true), range("D", 0, 3, true)});
-  const Domain PD = product("PIPELINExPOINTxVIEWPORT", {PIPE, PTS, VXY, VXY, VW, VH});
+  const Domain PTS = product("POINT{-1,-.5,0,.75,1}^2x{0,.25,1}", {ints("A", {0, 2, 4, 7, 8}), ints("B", {0, 2, 4, 7, 8}), ints("D", {0, 2, 4})});
+  const Domain PTT = product("POINT{-1,-.75,..,1}^2x{0,.1,.25,.5,1}", {range("A", 0, 9, true), range("B", 0, 9, true), range("D", 0, 5, true)});
+  const Domain PD = product("PIPELINExPOINTxVIEWPORT", {PIPE, PTS, VXY, VXY, VW, VH}), PDT = product("PIPELINExPOINTxVIEWPORT (thorough)", {PIPE, PTT, VXY, VXY, VW, VH});
   const std::vector<std::string> KC = {"clip cube (identity)", "ortho", "frustum", "perspective"};
-  add("projectNO/unProjectNO (+ unsuffixed dispatch), viewport of T", op_project<F, F, false>, PD, PD, KC);
-  add("projectZO/unProjectZO (+ unsuffixed dispatch), viewport of T", op_project<F, F, true>, PD, PD, KC);
-  add("projectNO/unProjectNO (+ unsuffixed dispatch), int viewport", op_project<F, int, false>, PD, PD, KC);
-  add("projectZO/unProjectZO (+ unsuffixed dispatch), int viewport", op_project<F, int, true>, PD, PD, KC);
+  add("projectNO/unProjectNO (+ unsuffixed dispatch), viewport of T", op_project<F, F, false>, PD, PDT, KC);
+  add("projectZO/unProjectZO (+ unsuffixed dispatch), viewport of T", op_project<F, F, true>, PD, PDT, KC);
+  add("projectNO/unProjectNO (+ unsuffixed dispatch), int viewport", op_project<F, int, false>, PD, PDT, KC);
+  add("projectZO/unProjectZO (+ unsuffixed dispatch), int viewport", op_project<F, int, true>, PD, PDT, KC);
   const Domain PK = product("VIEWPORTxCENTER{.1,.5,.9}^2xDELTA{(1,1),(5,3),(.5,100)}", {VXY, VXY, VW, VH, range("CX", 0, 3, true), range("CY", 0, 3, true), range("DELTA", 0, 3, true)});
   add("pickMatrix maps the pick region to the clip square, viewport of T", op_pick<F, F>, PK, PK, {"all"});
   add("pickMatrix maps the pick region to the clip square, int viewport", op_pick<F, int>, PK, PK, {"all"});
@@ -416,7 +417,7 @@ template <typename F> static void reg(Engine& E) {
 int main(int argc, char** argv) {
   Engine E; E.property = "C08"; std::atexit(print_stats);
   E.assumptions = {"the driver is compiled once per clip-control configuration; the expected configuration is derived from the GLM_FORCE_* macros on the command line, not from glm/detail/setup.hpp",
-    "geometric oracles take the returned matrix entries as exact and evaluate the map in long double (depth at 2^k*near in binary128); tolerance c*u*sum|terms|/w with c = 8 (rational entries) or 16 (entries through tan/sin/cos)",
+    "geometric oracles take the returned matrix entries as exact and evaluate the map in long double (depth at 2^k*near in binary128); tolerance c*u*sum|terms|/w with c = 12 (rational entries) or 16 (entries through tan/sin/cos)",
     "project/unProject oracles: defining formula in long double with a first-order running error bound for an evaluation in T, accepted within 4x the bound",
     "infinitePerspectiveLH/infinitePerspectiveRH are declared but not defined in the tree (link error); they are checked only when C08_HAVE_INFINITEPERSPECTIVE_LH_RH is defined"};
   E.extra_json["clip_control"] = std::string("\"") + VNAME[v_of(CFG_LH, CFG_ZO)] + "\"";
